@@ -193,6 +193,14 @@ Theorem C02_fee_share : forall amounts sel fee na total,
 Proof. exact msf_spec. Qed.
 Print Assumptions C02_fee_share.
 
+(* what the boolean predicate evaluated on the real wallet's transactions means: an empty list of
+   violated clauses gives eligibility of every input, no double spend, the requested outputs (as a
+   multiset: Go map order) plus at most one change to the right address, conservation against the
+   wallet's reported coin values, the three fee bounds and the sequence rule *)
+Theorem C02_check_sound : forall st r t, auto_tx_check st r t = [] -> tx_spec st r t.
+Proof. exact check_sound. Qed.
+Print Assumptions C02_check_sound.
+
 (* non-vacuity: a concrete wallet (immature, staking and pending-spent coins present) and request
    for which creation succeeds with a change output after one round trip of the fee loop, and the
    property predicate evaluates to "no clause violated" on the result *)
